@@ -116,7 +116,7 @@ func (c *DriveCtx) Exec(spec *RunSpec) *Result {
 func (res *Result) shape() string {
 	h := sha256.New()
 	// the scenario is part of what makes a run distinct: same trace shape on another input is another case
-	fmt.Fprintf(h, "%s\n", canonJSON(J{"r": mustJSON(res.Spec.Requests), "w": mustJSON(res.Spec.World)}))
+	fmt.Fprintf(h, "%s\n", canonJSON(J{"r": mustJSON(res.Spec.Requests), "w": mustJSON(res.Spec.World), "f": mustJSON(res.Spec.Faults)}))
 	for _, e := range res.Sim.Log {
 		fmt.Fprintf(h, "%s|%s|%v|%s\n", e.Task, e.Kind, e.Fault, resClass(e.Res))
 	}
@@ -165,7 +165,7 @@ func (c *DriveCtx) account(res *Result) {
 		o.Harness = append(o.Harness, res.Harness)
 		return
 	}
-	if res.Verdict == "budget" {
+	if res.Verdict == "budget" && c.P.ID != "C11" {
 		o.Harness = append(o.Harness, "step budget exhausted: "+res.Spec.Gen)
 	}
 	if res.Steps > 3 {
